@@ -276,6 +276,10 @@ def Packed.fits (h : Header) (p : Packed) : Prop :=
   p.pos.length = posBytes h ∧ p.color.length = 3 ∧ p.scale.length = 3 ∧ p.rot.length = 3 ∧
   p.sh.length = 3 * shDim h.shDegree
 
+/-- SH coefficient `d` of one record: bytes `3d, 3d+1, 3d+2` of its SH block -/
+def shCoef (p : Packed) (d : Nat) : V3 α :=
+  ⟨shDec (byteAt p.sh (d * 3 + 0)), shDec (byteAt p.sh (d * 3 + 1)), shDec (byteAt p.sh (d * 3 + 2))⟩
+
 /-- dequantisation of ONE record, from its own bytes -/
 def dequant (E : Env α) (h : Header) (p : Packed) : Point α :=
   { pos := if h.version = 1 then
@@ -290,8 +294,7 @@ def dequant (E : Env α) (h : Header) (p : Packed) : Point α :=
     scale := ⟨scaleDec (byteAt p.scale 0), scaleDec (byteAt p.scale 1), scaleDec (byteAt p.scale 2)⟩,
     rot := ⟨rotDec (byteAt p.rot 0), rotDec (byteAt p.rot 1), rotDec (byteAt p.rot 2),
             rotW (rotDec (byteAt p.rot 0)) (rotDec (byteAt p.rot 1)) (rotDec (byteAt p.rot 2))⟩,
-    sh := (List.range (shDim h.shDegree)).map fun d =>
-      ⟨shDec (byteAt p.sh (d * 3 + 0)), shDec (byteAt p.sh (d * 3 + 1)), shDec (byteAt p.sh (d * 3 + 2))⟩ }
+    sh := (List.range (shDim h.shDegree)).map (shCoef p) }
 
 end Spz
 end PolyVerif
